@@ -385,4 +385,6 @@ def run(ctx):
     # ---------------- R12.7 a path parameter's PLAIN text reaches from_plain as sent ('/' inside it included): shared with C07
     from . import c07, c15
     ctx.include(c15, {"O7"}, "R12.8", "the PLAIN text of every safelong in range (17 characters for the most negative ones) must parse back")
-    ctx.include(c07, {"R7.5"}, "R12.7", "the PLAIN text of a path parameter (Base64 and tokens may contain '/') must reach the parser as the client wrote it")
+    from . import c19 as _c19
+    ctx.include(_c19, {"R19.9"}, "R12.9", "the PLAIN text of a parameter value (the empty text of an empty string or binary included) must reach the parser and come back as that value")
+    ctx.include(c07, {"R7.5", "R7.9"}, "R12.7", "the PLAIN text of a path parameter (Base64 and tokens may contain '/') must reach the parser as the client wrote it")
